@@ -924,6 +924,12 @@ func valueKey(v ssa.Value, d int) string {
 		return ""
 	case *ssa.ChangeType:
 		return valueKey(x.X, d+1)
+	case *ssa.MakeInterface:
+		k := valueKey(x.X, d+1)
+		if k == "" {
+			return ""
+		}
+		return "iface(" + k + ")"
 	case *ssa.Alloc:
 		return fmt.Sprintf("alloc:%p", x)
 	}
